@@ -215,6 +215,16 @@ def judge_instance(res, cls, kwargs, vkind, which, defaults=None):
         cl = e.clone
         if type(cl) is not type(e) or c14n(cl._Element__element) != c14n(e._Element__element):
             out.append((f"clone:differs:{name}", {}))
+        else:
+            # the detached clone answers for itself (clones made earlier in the process are other objects)
+            for k, v0 in before.items():
+                try:
+                    v1 = getattr(cl, k)
+                except Exception as ex:
+                    out.append((f"clone:property-raised:{name}.{k}", {"exc": repr(ex)}))
+                    continue
+                if v1 != v0 and str(v1) != str(v0):
+                    out.append((f"clone:property-differs:{name}.{k}", {"original": repr(v0), "clone": repr(v1)}))
     except Exception as ex:
         import traceback
 
@@ -259,6 +269,30 @@ def part_ctor(ctx, res):
                     if allvals[n] and (rep == 0 or rng.random() < 0.6):
                         kw[n] = rng.choice(allvals[n])[0]
                 judge_instance(res, cls, kw, "mixed", "all" if rep == 0 else f"subset{len(kw)}", defaults)
+        # content given as a ready-made element (the alternative type of text_or_element / body) together with
+        # the other arguments: nothing of them may be lost, the content must be readable
+        for n, a, d, hp in params:
+            if n in ("text_or_element", "body") and "Element" in a:
+                from odfdo import Paragraph, Span
+
+                for rep in range(2 if ctx.quick else 10):
+                    kw = {}
+                    for n2, a2, d2 in observable:
+                        if allvals[n2] and (rep == 0 or rng.random() < 0.6):
+                            kw[n2] = rng.choice(allvals[n2])[0]
+                    body_el = Paragraph("element body")
+                    if rep % 2:
+                        body_el.append(Span("styled", style="T1"))
+                    kw[n] = body_el
+                    res0 = judge_instance(res, cls, kw, "element-content", f"with-element:{n}", defaults)
+                    try:
+                        e = cls(**kw)
+                        res.judge()
+                        res.cls((cls.__name__, f"content:{n}", "element", "ok"), True)
+                        if "element body" not in e.inner_text:
+                            res.violation(f"content-not-readable:{cls.__name__}.{n}", {"given": "Paragraph('element body')", "inner_text": e.inner_text[:200]}, {"kind": "ctor", "class": cls.__name__, "kwargs": {k: repr(v) for k, v in kw.items()}})
+                    except (TypeError, ValueError):
+                        pass
         # content arguments: the text must be readable
         for n, a, d, hp in params:
             if n in ("text", "text_or_element") and "str" in a and cls.__name__ not in ("VarSet",):
